@@ -38,7 +38,7 @@ VARIABLES members,  \* committed raft configuration (set of peers)
           fsm,      \* [Peers -> SUBSET Cids] pinset served by a live peer
           view,     \* [Peers -> SUBSET Peers] Consensus.Peers() of a live peer
           held,     \* [Peers -> SUBSET Cids] pinset a stopped peer held when it went down
-          cnt,      \* [ops, changes, downs]
+          cnt,      \* [ops, changes, downs, ldr]; ldr = p1 (the bootstrap leader) was never stopped or removed
           last      \* [a, at, p, c, out] out \in {"ok","noop","error"}
 
 vars == <<members, status, data, pins, fsm, view, held, cnt, last>>
@@ -55,7 +55,7 @@ Init ==
     /\ fsm = [p \in Peers |-> {}]
     /\ view = [p \in Peers |-> IF p = "p1" THEN {"p1"} ELSE {}]
     /\ held = [p \in Peers |-> {}]
-    /\ cnt = [ops |-> 0, changes |-> 0, downs |-> 0]
+    /\ cnt = [ops |-> 0, changes |-> 0, downs |-> 0, ldr |-> TRUE]
     /\ last = Act("init", NONE, NONE, NONE, "ok")
 
 \* every live member has applied everything and knows the configuration m
@@ -98,7 +98,7 @@ PeerAddPresent(at, p) ==
 PeerRemove(at, p) ==
     /\ at \in members \cap Up /\ Quorum(members)
     /\ cnt.changes < MaxChanges
-    /\ cnt' = [cnt EXCEPT !.changes = @ + 1]
+    /\ cnt' = [cnt EXCEPT !.changes = @ + 1, !.ldr = @ /\ ~(p = "p1" /\ p \in members /\ members # {p})]
     /\ UNCHANGED held
     /\ IF p \notin members
        THEN /\ last' = Act("rm", at, p, NONE, "noop")
@@ -119,7 +119,7 @@ Shutdown(p) ==
     /\ cnt.downs < MaxDowns
     /\ status' = [status EXCEPT ![p] = "down"]
     /\ Settle(members, pins, status')
-    /\ cnt' = [cnt EXCEPT !.downs = @ + 1]
+    /\ cnt' = [cnt EXCEPT !.downs = @ + 1, !.ldr = @ /\ p # "p1"]
     /\ last' = Act("shutdown", NONE, p, NONE, "ok")
     /\ held' = [held EXCEPT ![p] = pins]
     /\ UNCHANGED <<members, data, pins>>
@@ -132,7 +132,40 @@ Restart(p) ==
     /\ last' = Act("restart", NONE, p, NONE, "ok")
     /\ UNCHANGED <<members, data, pins, held, cnt>>
 
+(* Submissions at a follower that cannot be acknowledged (consensus.commit ->  *)
+(* redirectToLeader: CommitRetries+1 redirect attempts).  p1 is the leader as *)
+(* long as it was never stopped or removed (cnt.ldr; the driver checks it).   *)
+\* the leader is reachable but its Consensus RPC endpoint refuses every attempt:
+\* LogPin/LogUnpin must return an error, nothing is committed
+FaultyWrite(at, c, isPin) ==
+    /\ cnt.ldr /\ "p1" \in members \cap Up
+    /\ at \in (members \cap Up) \ {"p1"} /\ Quorum(members)
+    /\ cnt.ops < MaxOps
+    /\ IF isPin THEN c \notin pins ELSE c \in pins
+    /\ cnt' = [cnt EXCEPT !.ops = @ + 1]
+    /\ last' = Act(IF isPin THEN "fpin" ELSE "funpin", at, "p1", c, "noack")
+    /\ UNCHANGED <<members, status, data, pins, fsm, view, held>>
+
+\* the leader is shut down just before a follower submits: without a quorum left
+\* the call must fail; with a quorum a new leader may or may not commit it
+\* (out = "maybe": the real outcome decides, the script ends there)
+CrashWrite(at, c, isPin) ==
+    /\ cnt.ldr /\ "p1" \in members \cap Up
+    /\ at \in (members \cap Up) \ {"p1"} /\ Quorum(members)
+    /\ cnt.ops < MaxOps /\ cnt.downs < MaxDowns
+    /\ IF isPin THEN c \notin pins ELSE c \in pins
+    /\ status' = [status EXCEPT !["p1"] = "down"]
+    /\ held' = [held EXCEPT !["p1"] = pins]
+    /\ cnt' = [cnt EXCEPT !.ops = @ + 1, !.downs = @ + 1, !.ldr = FALSE]
+    /\ LET left == 2 * Cardinality((members \cap Up) \ {"p1"}) > Cardinality(members) IN
+       /\ last' = Act(IF isPin THEN "cpin" ELSE "cunpin", at, "p1", c, IF left THEN "maybe" ELSE "noack")
+       /\ pins' \in IF left THEN {pins, IF isPin THEN pins \cup {c} ELSE pins \ {c}} ELSE {pins}
+    /\ Settle(members, pins', status')
+    /\ UNCHANGED <<members, data>>
+
 Next ==
+    \/ \E at \in Peers, c \in Cids : FaultyWrite(at, c, TRUE) \/ FaultyWrite(at, c, FALSE)
+                                    \/ CrashWrite(at, c, TRUE) \/ CrashWrite(at, c, FALSE)
     \/ \E at \in Peers, c \in Cids : Write(at, c, TRUE) \/ Write(at, c, FALSE)
     \/ \E p, via \in Peers : Join(p, via)
     \/ \E at, p \in Peers : PeerAddPresent(at, p) \/ PeerRemove(at, p)
@@ -160,9 +193,13 @@ NoOpHarmless == [][last'.out \in {"noop", "error"} =>
                      UNCHANGED <<members, status, data, pins, fsm, view>>]_vars
 PinsetKept == [][last'.a \in {"join", "add", "rm", "shutdown", "restart"} => pins' = pins]_vars
 
+\* an operation that is not acknowledged because every redirect failed is not committed
+\* (and, in the binding: an acknowledged one always is - AckDurable of C01)
+UnackedFaultyNotCommitted == [][last'.a \in {"fpin", "funpin"} => pins' = pins /\ last'.out = "noack"]_vars
+
 (* Reachability goals (negated): witnesses replayed on the real code.       *)
 \* a member comes back after CIDs it held were unpinned (and possibly re-pinned) meanwhile
-NoRestartAfterUnpin == [][~(\E p \in Peers : Restart(p) /\ \E c \in held[p] : c \notin pins)]_vars
-NoRestartAfterChurn == [][~(\E p \in Peers : Restart(p) /\ (\E c \in held[p] : c \notin pins)
+NoRestartAfterUnpin == [][~(\E p \in Peers : Restart(p) /\ cnt.ldr /\ \E c \in held[p] : c \notin pins)]_vars
+NoRestartAfterChurn == [][~(\E p \in Peers : Restart(p) /\ cnt.ldr /\ (\E c \in held[p] : c \notin pins)
                                                       /\ (\E c \in pins : c \notin held[p]))]_vars
 =============================================================================
